@@ -1148,6 +1148,17 @@ func (f *Field) Import(rowIDs, columnIDs []uint64, timestamps []*time.Time, opts
 
 	fieldType := f.Type()
 
+	// A clear removes the bit from every view that can hold it, as
+	// ClearBit does: the standard view if there is one, and each time view.
+	var clearViews []string
+	if options.Clear {
+		for _, v := range f.views() {
+			if v.name == viewStandard || strings.HasPrefix(v.name, viewStandard+"_") {
+				clearViews = append(clearViews, v.name)
+			}
+		}
+	}
+
 	// Split import data by fragment.
 	dataByFragment := make(map[importKey]importData)
 	for i := range rowIDs {
@@ -1163,14 +1174,17 @@ func (f *Field) Import(rowIDs, columnIDs []uint64, timestamps []*time.Time, opts
 			timestamp = timestamps[i]
 		}
 
+		// In order to match the logic of `SetBit()`, bits with timestamps
+		// are written to both time and standard views, and nothing is
+		// written to a standard view the field does not have.
 		var standard []string
-		if timestamp == nil {
-			standard = []string{viewStandard}
+		if options.Clear {
+			standard = clearViews
 		} else {
-			standard = viewsByTime(viewStandard, *timestamp, q)
+			if timestamp != nil {
+				standard = viewsByTime(viewStandard, *timestamp, q)
+			}
 			if !f.options.NoStandardView {
-				// In order to match the logic of `SetBit()`, we want bits
-				// with timestamps to write to both time and standard views.
 				standard = append(standard, viewStandard)
 			}
 		}
